@@ -77,6 +77,7 @@ class Sched(object):
 S = None
 URLKEY = {}
 VERS = {}                 # resource name -> how often the caller has changed it at its source ("touch")
+APPEARED = set()          # resources that could not be fetched at the start and were made available by the caller ("appear")
 STUCK_AFTER = 20.0        # seconds of real time without reaching a yield point (a step normally takes milliseconds)
 
 
@@ -171,6 +172,9 @@ PROGS = {
     "lA_tC_rA_lA": [("load", "A"), ("touch", "C"), ("refresh", "A"), ("load", "A")],
     "dA_tB_rA_lA_lB": [("deferred_load", "A"), ("touch", "B"), ("refresh", "A"), ("load", "A"), ("load", "B")],
     "lA_tC_rA_lA_lB_lC": [("load", "A"), ("touch", "C"), ("refresh", "A"), ("load", "A"), ("load", "B"), ("load", "C")],
+    # appear: a resource that could not be fetched becomes available (the caller does that between two calls)
+    "dC_aC_lC": [("deferred_load", "C"), ("appear", "C"), ("load", "C")],
+    "lC_aC_lC_lB": [("load", "C"), ("appear", "C"), ("load", "C"), ("load", "B")],
 }
 REFRESH_PROGS = [p for p, ops in PROGS.items() if any(o == "refresh" for o, _ in ops)]
 
@@ -297,6 +301,7 @@ def _run(graph, prog, schedule, workdir, variant="terminology", cache="empty"):
     running thread continues, else the lowest enabled one).  Returns a dict."""
     global S, URLKEY
     VERS.clear()
+    APPEARED.clear()
     S = Sched()
     d = C.fresh_dir(workdir)
     res_dir = os.path.join(d, "res"); os.makedirs(res_dir)
@@ -332,20 +337,28 @@ def _run(graph, prog, schedule, workdir, variant="terminology", cache="empty"):
     def main():
         for op, x in PROGS[prog]:
             try:
+                if op == "appear":
+                    S.yield_point(("appear", x, 0))
+                    if not fetchable(graph, x):
+                        APPEARED.add(x)
+                        open(os.path.join(res_dir, x + ".xml"), "w").write(resource_text(graph, x, urls))
+                    results.append({"op": op, "url": x, "res": "ok", "sig": "-", "obj": "-", "vers": {}, "cur": {}, "usable": True})
+                    continue
                 if op == "touch":
                     S.yield_point(("touch", x, 0))
                     if fetchable(graph, x):
                         VERS[x] = VERS.get(x, 0) + 1
                         open(os.path.join(res_dir, x + ".xml"), "w").write(resource_text(graph, x, urls, ver=VERS[x]))
-                    results.append({"op": op, "url": x, "res": "ok", "sig": "-", "obj": "-", "vers": {}, "cur": {}})
+                    results.append({"op": op, "url": x, "res": "ok", "sig": "-", "obj": "-", "vers": {}, "cur": {}, "usable": True})
                     continue
                 r = getattr(api, op)(urls[x])
                 seen = seen_versions(r) if op == "load" else {}
                 results.append({"op": op, "url": x, "res": "ok", "sig": actual_sig(r) if op == "load" else "-",
                                 "obj": "none" if r is None else "o%d" % id(r),
-                                "vers": seen, "cur": {y: VERS.get(y, 0) for y in seen}})
+                                "vers": seen, "cur": {y: VERS.get(y, 0) for y in seen},
+                                "usable": (fetchable(graph, x) or x in APPEARED) and parsable(graph, x)})
             except BaseException as e:
-                results.append({"op": op, "url": x, "res": "raised:" + type(e).__name__, "sig": "-", "obj": "-", "vers": {}, "cur": {}})
+                results.append({"op": op, "url": x, "res": "raised:" + type(e).__name__, "sig": "-", "obj": "-", "vers": {}, "cur": {}, "usable": True})
                 raise
 
     tid = S.new_tid(); S.register(tid); S.threads[tid]["state"] = "running"
@@ -385,7 +398,8 @@ def _run(graph, prog, schedule, workdir, variant="terminology", cache="empty"):
     cached = [x for x in urls if cache_after[x] != "absent"]
     errs = {str(t): ("none" if th["exc"] is None else type(th["exc"]).__name__) for t, th in S.threads.items()}
     return {"results": results, "errs": errs, "log": S.log, "choices": choices, "deadlock": bool(unfinished),
-            "cached": sorted(cached), "steps": i, "cache_before": cache_before, "cache_after": cache_after, "stuck": stuck}
+            "cached": sorted(cached), "steps": i, "cache_before": cache_before, "cache_after": cache_after, "stuck": stuck,
+            "appeared": sorted(APPEARED)}
 
 
 def run(graph, prog, schedule, workdir, variant="terminology", cache="empty"):
